@@ -231,6 +231,11 @@ class FuncCtx:
             if not n.get("name"):      # anonymous struct/union member
                 base = self.canon(ch[0], depth, subst)
                 return base + ("->" if n.get("isArrow") else ".") + "<anon>"
+            b0 = self.resolve(ch[0])
+            if n.get("isArrow") and b0["kind"] == "BinaryOperator" and b0.get("opcode") == "+" and \
+                    "*" in (strip(kids(b0)[0], casts=True).get("type") or "") and "*" not in (strip(kids(b0)[1], casts=True).get("type") or "*"):
+                # (p + i)->f  ==  p[i].f
+                return "%s[%s].%s" % (self.canon(kids(b0)[0], depth, subst), self.canon(kids(b0)[1], depth, subst), n["name"])
             base = self.canon(ch[0], depth, subst)
             if base.endswith("-><anon>") or base.endswith(".<anon>"):
                 return base[:-6] + n["name"]
@@ -244,6 +249,10 @@ class FuncCtx:
                 return inner[1:]
             if op == "*" and inner.startswith("&"):
                 return inner[1:]
+            c0 = self.resolve(ch[0])
+            if op == "*" and c0["kind"] == "BinaryOperator" and c0.get("opcode") == "+" and \
+                    "*" in (strip(kids(c0)[0], casts=True).get("type") or "") and "*" not in (strip(kids(c0)[1], casts=True).get("type") or "*"):
+                return "%s[%s]" % (self.canon(kids(c0)[0], depth, subst), self.canon(kids(c0)[1], depth, subst))
             if n.get("isPostfix"):
                 return inner + op
             return op + inner
